@@ -348,3 +348,75 @@ def rule_memo_on_pull(db: ProgramDB) -> List[Instance]:
                             f"`{unparse(a)[:70]}` wraps the source in a lazy iterator" if lazy else
                             f"`{unparse(a)[:70]}` materialises the source", line=a.lineno))
     return out
+
+
+def rule_dup_stable(db: ProgramDB) -> List[Instance]:
+    """The first pass over a lazily consumed domain yields what later passes replay from the memo.  The memo is keyed by
+    identity, so an object the domain lists twice is replayed once: the pulling loop must therefore not yield an element
+    that is already memoised."""
+    out = []
+    hi = db.cls("HashedIterable")
+    n = 0
+    for m in hi.methods.values():
+        if not m.is_generator:
+            continue
+        for loop in [x for x in own_nodes(m.node) if isinstance(x, ast.For) and isinstance(x.iter, ast.Attribute)
+                     and x.iter.attr == "iterable"]:
+            n += 1
+            tn = {x.id for x in ast.walk(loop.target) if isinstance(x, ast.Name)}
+            guard = None
+            for s in loop.body:
+                if isinstance(s, ast.If) and any(isinstance(x, ast.Compare) and any(isinstance(o, ast.In) for o in x.ops)
+                                                 and "values" in unparse(x.comparators[0]) for x in ast.walk(s.test)) \
+                        and any(isinstance(b, ast.Continue) for b in s.body):
+                    guard = s
+                    break
+                if any(isinstance(x, (ast.Yield, ast.YieldFrom)) for x in ast.walk(s)):
+                    break
+                if isinstance(s, ast.If) and any(isinstance(x, ast.Compare) and any(isinstance(o, ast.NotIn) for o in x.ops)
+                                                 and "values" in unparse(x.comparators[0]) for x in ast.walk(s.test)) \
+                        and any(isinstance(x, ast.Yield) for b in s.body for x in ast.walk(b)):
+                    guard = s
+                    break
+            ok = guard is not None
+            out.append(inst("DUP-STABLE", HOLDS if ok else VIOLATION, m, f"{m.short}[element already memoised]",
+                            "an element that is already in the memo is not yielded a second time" if ok else
+                            "every pulled element is yielded, also one that is already in the memo: a domain that lists the same "
+                            "object twice yields it twice on the first evaluation and once (from the memo) on every later one",
+                            line=loop.lineno))
+    if n == 0:
+        raise AnalysisError("HashedIterable: no generator loop over self.iterable")
+    return out
+
+
+def rule_iter_snapshot(db: ProgramDB) -> List[Instance]:
+    """The memo of a HashedIterable backs the instance registry; constructing an instance while a registry-backed domain
+    is being iterated adds to it.  Iterating the live dict view raises 'dictionary changed size during iteration': the
+    replay must iterate a snapshot."""
+    out = []
+    hi = db.cls("HashedIterable")
+    n = 0
+    for m in hi.methods.values():
+        if not m.is_generator:
+            continue
+        for x in own_nodes(m.node):
+            it = None
+            if isinstance(x, ast.YieldFrom):
+                it = x.value
+            elif isinstance(x, ast.For) and any(isinstance(y, ast.Yield) for y in ast.walk(x)):
+                it = x.iter
+            if it is None:
+                continue
+            src = unparse(it)
+            if "self.values" not in src:
+                continue
+            n += 1
+            snap = isinstance(it, ast.Call) and dotted(it.func) in ("list", "tuple")
+            out.append(inst("ITER-SNAPSHOT", HOLDS if snap else VIOLATION, m, f"{m.short}[replay of the memo]",
+                            f"`{src}` replays a snapshot of the memo" if snap else
+                            f"`{src}` iterates the live memo while yielding: an instance constructed by the consumer (or by a rule "
+                            f"that infers the type it ranges over) grows the registry store during the iteration and raises "
+                            f"RuntimeError: dictionary changed size during iteration", line=x.lineno))
+    if n == 0:
+        raise AnalysisError("HashedIterable: replay of the memo not found")
+    return out
